@@ -75,7 +75,7 @@ def run_one(it):
             h = m.header
             cur["rec"]["delivered"].append({"h": {"r": h.from_equipment, "dev": h.device_id, "w": h.require_response, "s": h.stream,
                                            "f": h.function, "sys": list(h.system.to_bytes(4, "big"))},
-                                     "n": len(m.data), "same": bytes(m.data) == pattern(len(m.data))})
+                                     "n": len(m.data), "same": bytes(m.data) == (bytes.fromhex(cur["rec"]["bodyhex"]) if cur["rec"].get("bodyhex") else pattern(len(m.data)))})
 
         rcv.events.message_received += on_msg
         host.enable()
@@ -87,7 +87,7 @@ def run_one(it):
             sent_count["S"] = 0
             h = rec_m["h"]
             hdr = SecsIHeader(int.from_bytes(bytes(h["sys"]), "big"), h["dev"], h["s"], h["f"], 0, h["r"], h["w"], True)
-            msg = SecsIMessage(hdr, pattern(rec_m["n"]))
+            msg = SecsIMessage(hdr, bytes.fromhex(rec_m["bodyhex"]) if rec_m.get("bodyhex") else pattern(rec_m["n"]))
             done = {"v": False}
 
             def do_send():
@@ -204,6 +204,15 @@ def run(ctx: Ctx):
                               "delta": 0, "seed": rng.randrange(1 << 30), "policy": rng.choice(["fifo", "random", "pct"]),
                               "seq": [(n_, dict(h_, r=(d == "e2h"))) for n_, h_ in zip(sizes_, hdrs)]})
                 tid += len(sizes_) - 1
+    # bodies that are no complete SECS-II item (cut inside an item header, a list announcing more than follows, more elements than
+    # the function defines): the line protocol carries bytes, what they mean is the application's business
+    for d in ("h2e", "e2h"):
+        for sfn, fn, w, bodyhex in ((1, 13, True, "01"), (1, 13, True, "0102"), (1, 13, True, "010241"), (1, 3, True, "0103a901"), (6, 11, True, "0103"),
+                                    (12, 8, False, "13"), (10, 3, False, "0103a50101a50102a50103"), (1, 1, True, "41")):
+            tid += 1
+            items.append({"id": tid, "dir": d, "n": len(bodyhex) // 2, "bodyhex": bodyhex, "h": dict(hs[0], s=sfn, f=fn, w=w, r=(d == "e2h")),
+                          "chunk": rng.choice(["whole", "byte", "rand"]), "corrupt": 0, "pos": 0, "delta": 0, "seed": rng.randrange(1 << 30),
+                          "policy": rng.choice(["fifo", "random"])})
     # corruptions: every position of a short block, sampled positions of long ones
     for d in ("h2e", "e2h"):
         for n, blkno in ((0, 1), (1, 1), (244, 1), (245, 2), (600, 2), (600, 3)):
@@ -232,7 +241,8 @@ def run(ctx: Ctx):
     for r_ in bad[:2]:
         raise Machinery(f"line run error {r_['errors']}")
     f = wd / "line_traces.json"
-    f.write_text(json.dumps([{k: r_[k] for k in ("id", "h", "n", "writes", "corrupt", "result", "delivered", "wedged", "lenbyte")} for r_ in recs]))
+    f.write_text(json.dumps([dict({k: r_[k] for k in ("id", "h", "n", "writes", "corrupt", "result", "delivered", "wedged", "lenbyte")},
+                                  custom=bool(r_.get("bodyhex")), body=list(bytes.fromhex(r_.get("bodyhex") or ""))) for r_ in recs]))
     rj = tlc.run("SecsILineJudge", cfg_text="", workdir=wd, workers=1, env={"TRACE_FILE": str(f)}, what="judge", coverage=False,
                  timeout=1800, heap="12g")
     tlc.require_ok(rj, "SecsILineJudge")
